@@ -2,4 +2,4 @@
 From Coq Require Import ExtrOcamlBasic ZArith NArith.
 From ZV Require Import Determ.Model.
 Extraction Language OCaml.
-Extraction "model.ml" Z.of_N N.of_nat Nat.add run_trace jreply mkReq mkCall.
+Extraction "model.ml" Z.of_N N.of_nat Nat.add run_trace run_trace_gen jreply mkReq mkCall.
